@@ -801,6 +801,11 @@ func validateLeaseSet2Inputs(
 	if err := validateOfflineSignatureFlags(flags, offlineSig); err != nil {
 		return err
 	}
+	if reserved := flags & 0xFFF8; reserved != 0 {
+		return oops.
+			Code("reserved_flags_set").
+			Errorf("LeaseSet2 has non-zero reserved flag bits: 0x%04x", reserved)
+	}
 	if err := validateEncryptionKeyInputs(encryptionKeys); err != nil {
 		return err
 	}
@@ -871,6 +876,9 @@ func validateEncryptionKeyInputs(encryptionKeys []EncryptionKey) error {
 				With("declared_len", key.KeyLen).
 				With("actual_len", len(key.KeyData)).
 				Errorf("encryption key %d: declared KeyLen %d does not match actual KeyData length %d", i, key.KeyLen, len(key.KeyData))
+		}
+		if err := validateEncryptionKeyConsistency(i, key); err != nil {
+			return err
 		}
 	}
 	return nil
